@@ -2,6 +2,7 @@ package main
 
 import (
 	"flag"
+	"go/types"
 
 	"fmt"
 	"golang.org/x/tools/go/ssa"
@@ -62,6 +63,23 @@ func main() {
 		}
 		sort.Strings(ids)
 		fmt.Println(strings.Join(ids, " "))
+		return
+	}
+	if os.Getenv("XDUMPSIGS") != "" {
+		// development aid: regenerate knownsigs.go (the signatures of the reference tree's functions)
+		w := load(loadOpts{repo: *repo})
+		var ks []string
+		for k := range knownFuncs {
+			ks = append(ks, k)
+		}
+		sort.Strings(ks)
+		fmt.Println("package main\n\n// Code generated from the reference tree (XDUMPSIGS=1 xcheck): the signature each known function had there.\n// A function of the same name with another signature is a different function as far as the walk-through policy goes.\nvar knownSigs = map[string]string{")
+		for _, k := range ks {
+			if f := w.ByKey[k]; f != nil {
+				fmt.Printf("\t%q: %q,\n", k, sigString(f))
+			}
+		}
+		fmt.Println("}")
 		return
 	}
 	if *tier == "" {
@@ -169,8 +187,34 @@ func setInlinePolicy(w *World) {
 		if callee.Synthetic != "" {
 			return false // wrappers (bound methods, thunks) stand for the method they call
 		}
-		return !knownFuncs[w.funcKey(callee)]
+		k := w.funcKey(callee)
+		if !knownFuncs[k] {
+			return true
+		}
+		// the name is the reference tree's, but is it that function? One with another signature is a new helper
+		// (functions a rule names stay what they are: the rules look for them by identity)
+		if ref, ok := knownSigs[k]; ok && ref != sigString(callee) && !anchoredKeys[normKey(k)] {
+			return true
+		}
+		return false
 	}
+}
+
+// sigString: parameter and result types only — naming a result or renaming a parameter does not make another function.
+func sigString(f *ssa.Function) string {
+	q := func(p *types.Package) string { return p.Name() }
+	tuple := func(t *types.Tuple) string {
+		var parts []string
+		for i := 0; i < t.Len(); i++ {
+			parts = append(parts, types.TypeString(t.At(i).Type(), q))
+		}
+		return strings.Join(parts, ", ")
+	}
+	v := ""
+	if f.Signature.Variadic() {
+		v = "..."
+	}
+	return "func(" + tuple(f.Signature.Params()) + v + ") (" + tuple(f.Signature.Results()) + ")"
 }
 
 // runRules runs the property's rule set. A tree on which the rules cannot be evaluated — a function, field or type
